@@ -1017,7 +1017,11 @@ class Check(PropertyCheck):
     rule = ("typed random dataflow programs over a ten-task family (every call carries a fresh tag; deliberate structural "
             "copies exercise the duplicate-expression path), run as 1-2 executions on one in-memory backend by the real "
             "Scheduler (second run: tags shifted except inside catch expressions chosen to replay from the catch cache); "
-            "a case is non-trivial if some recorded argument has an upstream link; distinct by program text")
+            "a case is non-trivial if some recorded argument has an upstream link; distinct by program text; the oracle "
+            "additionally runs multi-level workflows in which equal lazy expressions (getitem, operators, cond, seq, catch, "
+            "displays) over an uncached impure producer are evaluated under different parent jobs and in successive "
+            "executions on one backend object, and requires each argument to link exactly the producer call whose "
+            "recorded result flowed into the value received")
 
     # ------------------------------------------------------------------
     def translate(self):
